@@ -62,7 +62,7 @@ Section Rel.
     destruct (has_dup (map skey l)); auto. destruct (has_dup (map rkey3 ref)); auto.
     assert (E : map (fun s => lookup ref (skey s)) l' = map (fun s => lookup ref (skey s)) l).
     { rewrite <- !(map_map skey (lookup ref)). now rewrite (rel_keys _ _ H). }
-    rewrite E. destruct (all_some _) as [rs|]; auto.
+    rewrite E. destruct (Prelude.all_some _) as [rs|]; auto.
     clear E. revert rs. induction H as [|s s' l l' Hs H IH]; intros [|r rs]; cbn [combine]; constructor; auto.
     split; auto.
   Qed.
